@@ -301,7 +301,7 @@ where
             || new_config.queue_size != config.queue_size;
 
         // Re-create the reconnect delay interval based on the new config
-        connection.set_retry_delay(config.connect_retry_secs);
+        connection.set_retry_delay(new_config.connect_retry_secs);
 
         // Store the changed configuration
         self.config.store(Arc::new(new_config));
